@@ -130,7 +130,8 @@ fn client(d: Arc<dyn Drv>, h: HCfg, tid: u8, ids: Arc<AtomicU64>, clears: Arc<(A
     // writes per key since the last judged barrier: only keys with exactly one are decided exactly
     let mut batch_n: HashMap<u64, u32> = HashMap::new();
     let mut batch_err = false;
-    let mut batch_clear_started = clears.0.load(Ordering::SeqCst);
+    // (started, finished) clear() calls when the current batch began
+    let mut batch_clear_started = (clears.0.load(Ordering::SeqCst), clears.1.load(Ordering::SeqCst));
     let (mut checks, mut skipped) = (0u64, 0u64);
     let (mut single, mut multi) = (0u64, 0u64);
     let mut bad: Vec<(u64, u64, String)> = Vec::new();
@@ -272,7 +273,7 @@ fn client(d: Arc<dyn Drv>, h: HCfg, tid: u8, ids: Arc<AtomicU64>, clears: Arc<(A
                         extra.push(g);
                     }
                     let clear_now = (clears.0.load(Ordering::SeqCst), clears.1.load(Ordering::SeqCst));
-                    let clear_seen = clear_now.0 != batch_clear_started || clear_now.0 != clear_now.1;
+                    let clear_seen = clear_now.0 != batch_clear_started.0 || clear_now.0 != clear_now.1 || batch_clear_started.0 != batch_clear_started.1;
                     if batch_err || clear_seen {
                         skipped += 1;
                         for k in batch.keys().chain(cur.keys()) {
@@ -320,7 +321,7 @@ fn client(d: Arc<dyn Drv>, h: HCfg, tid: u8, ids: Arc<AtomicU64>, clears: Arc<(A
                     batch.clear();
                     batch_n.clear();
                     batch_err = false;
-                    batch_clear_started = clears.0.load(Ordering::SeqCst);
+                    batch_clear_started = (clears.0.load(Ordering::SeqCst), clears.1.load(Ordering::SeqCst));
                 } else if barrier {
                     // wait failed (full buffer): the batch simply continues
                 }
@@ -346,7 +347,9 @@ fn wait_ok(d: &dyn Drv) -> Result<(), String> {
                 if t0.elapsed() > Duration::from_secs(60) {
                     return Err(format!("wait() kept failing for 60 s: {e}"));
                 }
-                std::thread::yield_now();
+                // a full buffer: let the processor work (on a single-threaded executor it only
+                // runs while somebody drives it)
+                let _ = d.drive_until(&|| d.buffer().0 < d.buffer().1, Duration::from_millis(100));
             }
         }
     }
@@ -437,11 +440,22 @@ pub fn run_history(flavor: Flavor, h: &HCfg) -> Hist {
     }
     let _ = d.drive_until(&|| counters::get(&counters::POLICY_KEYS_APPLIED) >= counters::get(&counters::PUSH_KEYS_KEPT), Duration::from_secs(60));
     phase("check");
-    let c1 = counters::snapshot();
-    let snap = d.snapshot();
-    let c2 = counters::snapshot();
-    if c1 != c2 {
-        qerr = Some("hook counters moved across the quiescent snapshot".into());
+    // nothing may be in flight while the snapshot is taken (the counter of the last handled item
+    // may tick just after wait() returned, hence the retries)
+    let mut snap = d.snapshot();
+    let mut stable = false;
+    for _ in 0..50 {
+        let c1 = counters::snapshot();
+        snap = d.snapshot();
+        let c2 = counters::snapshot();
+        if c1 == c2 {
+            stable = true;
+            break;
+        }
+        std::thread::sleep(Duration::from_millis(2));
+    }
+    if !stable {
+        qerr = Some("hook counters kept moving across the quiescent snapshot".into());
     }
     let metrics_before_final = d.metrics();
     let _ = metrics_before_final;
